@@ -1,5 +1,10 @@
 //! vcheck — bounded exhaustive exploration of keepsimple1/mdns-sd (see /verif/DESIGN.md).
+mod alloc_track;
 mod c01;
+
+#[global_allocator]
+static ALLOC: alloc_track::Counting = alloc_track::Counting;
+
 mod browse;
 mod c02;
 mod c03;
